@@ -414,6 +414,8 @@ Section Order.
 
   Lemma existsb_perm {A} (f : A -> bool) l l' : Permutation l l' -> existsb f l = existsb f l'.
   Proof. induction 1; cbn [existsb]; try congruence. destruct (f x), (f y); reflexivity. Qed.
+  Lemma tflag_perm i ls ls' : Permutation ls ls' -> tflag i ls = tflag i ls'.
+  Proof. intros H. unfold tflag, tmiss. rewrite (maxlen_perm ls ls' H), (existsb_perm _ ls ls' H). reflexivity. Qed.
 
   Lemma cores_perm vs vs' : Permutation vs vs' -> Permutation (cores vs) (cores vs').
   Proof. intros H. unfold cores. apply Permutation_flat_map, H. Qed.
@@ -538,7 +540,9 @@ Section Order.
         destruct (tuple_projection o d (map snd (x0 :: r0)) false u ltac:(discriminate) E1) as (F & -> & Hlen & Hcol).
         destruct (tuple_projection o d (map snd TS') false u' ltac:(destruct TS'; [congruence|discriminate]) E2) as (F' & -> & Hlen' & Hcol').
         apply teq_tuple; [rewrite Hlen, Hlen'; apply maxlen_perm, Hps|].
-        intros i. apply (IH (S d) (col i (map snd (x0 :: r0))) (col i (map snd TS')) _ _ (Hh i) (col_perm i _ _ Hps) (Hcol i) (Hcol' i)).
+        intros i. destruct (Hcol i) as (T & R & ->). destruct (Hcol' i) as (T' & R' & ->).
+        rewrite (tflag_perm i _ _ Hps). apply teq_mk.
+        apply (IH (S d) (col i (map snd (x0 :: r0))) (col i (map snd TS')) _ _ (Hh i) (col_perm i _ _ Hps) R R').
       + (* enum variants: one position per variant *)
         destruct (cores vs) as [|c0 r0] eqn:Hc.
         { destruct (cores_nil_atoms o vs Hc) as (l & Hl). apply (leaf_case d vs vs' l t t' Hl Hp H1 H2). }
